@@ -84,6 +84,20 @@ def build_opening(kind: str) -> dict:
     raise ValueError(kind)
 
 
+def stream_views(streams: Dict[str, dict]) -> List[list]:
+    """what the independent client saw per stream, as a split-independent (sorted) list of [status, ended, data, reset].
+    Total on anything a misbehaving server can produce: an unanswered stream has status None, a head without (or with a
+    non-numeric) `:status` has status -1 - neither may break the harness, both are judged by the monitor."""
+    views = []
+    for st in streams.values():
+        status: Optional[int] = None
+        if st.get("headers"):
+            raw = dict((n, v) for n, v in st["headers"]).get(":status")
+            status = int(raw) if isinstance(raw, str) and raw.isdigit() else -1
+        views.append([status, bool(st.get("ended")), st.get("data"), st.get("reset")])
+    return sorted(views, key=lambda v: (v[0] is None, v[0] if v[0] is not None else 0, v[1], str(v[2]), str(v[3])))
+
+
 OPENINGS = ["alpn_h2", "prior", "h2c", "h2c_settings", "h2c_body", "ws", "plain11", "plain10", "alpn_http11"]
 
 
@@ -127,8 +141,7 @@ def observe(worker: str, op: dict, reads: List[bytes]) -> dict:
         cc.conn.data_to_send()
         cc.receive(rest)
         s = cc.summary()
-        wire.update({"statuses": sorted((int(dict(st["headers"])[":status"]) if st["headers"] else None, st["ended"], st["data"]) for st in s["streams"].values()),
-                     "error": s["error"]})
+        wire.update({"statuses": stream_views(s["streams"]), "error": s["error"]})
     else:
         head, sep, rest = out.partition(b"\r\n\r\n")
         wire = {"status101": head.startswith(b"HTTP/1.1 101"), "frames": len(rest) > 0}
